@@ -10,12 +10,16 @@ TRUSTED_BASE = [
     "Preds/P12.v: the list algebra of the property (replace / append / update / filter on decoded pairs)",
     "float rendering (str(float)) is supplied by the harness with the argument; argument immutability is observed on the implementation",
     "extraction (ExtrOcamlBasic only), ocaml/driver*.ml, harness",
+    "source translator harness/gen_model.py (Python ast -> Gallina, fail closed): with_query, extend_query, update_query, without_query_params and "
+    "yarl/_query.py are re-read from the working tree on every run and proved equal to the model (C12_source_*); trusted: its reading of the "
+    "type tests as predicates on the model's sum types (coq/Model/GenQTypes.v), of MultiDict(...).update as Model/Query.md_update, and of the "
+    "(*args, **kwargs) pair as the model's single query argument",
 ]
-ASSUMPTIONS = ["source-to-model tie is differential testing; Mapping/Sequence type dispatch for exotic argument types is Python glue exercised through dict, MultiDict, list and tuple only"]
+ASSUMPTIONS = ["source-to-model tie of multidict and parse_qsl is differential testing; Mapping/Sequence type dispatch for exotic argument types is Python glue exercised through dict, MultiDict, list and tuple only"]
 RULE = ("existing queries (none, single, repeated keys, blank values, escapes, '+', undecodable escapes) x the four operations x argument "
         "forms None / str / mapping (dict or MultiDict, list values) / sequence of pairs (list or tuple) with str, int, float, bool, None, "
         "inf, nan, bytes, other values; predicate c12_pred on the decoded pairs before/after; the argument object is compared before "
-        "and after the call on the implementation; distinct = distinct (base, operation, argument)")
+        "and after the call on the implementation; keys that are substrings of one another with single-name removals; distinct = distinct (base, operation, argument)")
 
 BASES = ["http://h/p", "http://h/p?a=1", "http://h/p?a=1&b=2", "http://h/p?a=1&a=2&b=3", "http://h/p?a=1&b=2&a=3&c=&a=4", "http://h/p?a", "http://h/p?=1",
          "http://h/p?a+b=c%20d&%C3%A9=%2B", "http://h/p?a=%FF&b=%26%3D", "/rel?x=1&y=2&x=3", "http://h/?a=1&a=2&b=1&b=old", "http://h/?a=1&b=1&a=2&b=2&c=3&a=3&b=3", "http://h/p?a=1&&b=2&", "http://h/p?k;=1;2", "?a=b=c",
